@@ -680,16 +680,16 @@ def starterCheck (fuel : Nat) : M Unit := do
       match c.target with
       | none => pure ()
       | some i =>
-        match getInfo x.infos i with
-        | none => pure ()
-        | some v =>
-          let cnt := w.counter.getD i 0
-          let res := startCheckResult cfgp.waitExit c.ignoreWaitExit v.state c.reqCounter c.waitTicks cnt
+        -- the process may have been removed from the Supervisor of the target in the meantime: the request is given up now
+        let (res, etime) : Nat × Nat := match getInfo x.infos i with
+          | none => (3, w.now)
+          | some v => (startCheckResult cfgp.waitExit c.ignoreWaitExit v.state c.reqCounter c.waitTicks (w.counter.getD i 0), v.etime)
+        do
           if res = 3 then
             -- the command is removed, the starting failure strategy applied, then the state forced
             modify fun w => { w with current := w.current.map (fun jj => if jj.app = j.app ∧ jj.runId = j.runId then
               processFailure w { jj with current := jj.current.filter (fun cc => !(cc.proc = c.proc ∧ cc.target = c.target)) } c.proc else jj) }
-            failCommand fuel c.proc (some i) v.etime .fatal j.runId
+            failCommand fuel c.proc (some i) etime .fatal j.runId
           if res = 1 then
             modify fun w => { w with current := w.current.map (fun jj => if jj.app = j.app then
               { jj with current := jj.current.filter (fun cc => !(cc.proc = c.proc ∧ cc.target = c.target)) } else jj) }
@@ -704,16 +704,16 @@ def stopperCheck (fuel : Nat) : M Unit := do
     for c in j.current do
       let w ← get
       let x := w.procs.getD c.proc {}
-      match getInfo x.infos c.target with
-      | none => pure ()
-      | some v =>
-        let cnt := w.counter.getD c.target 0
-        let res := stopCheckResult v.state c.reqCounter c.waitTicks cnt
+      -- a process removed from the Supervisor of the target was stopped: the job is done
+      let (res, etime) : Nat × Nat := match getInfo x.infos c.target with
+        | none => (1, w.now)
+        | some v => (stopCheckResult v.state c.reqCounter c.waitTicks (w.counter.getD c.target 0), v.etime)
+      do
         if res = 3 ∨ res = 1 then
           modify fun w => { w with scurrent := w.scurrent.map (fun jj => if jj.app = j.app then
             { jj with current := jj.current.filter (fun cc => !(cc.proc = c.proc ∧ cc.target = c.target)) } else jj) }
         if res = 3 then
-          failCommand fuel c.proc (some c.target) v.etime .stopped
+          failCommand fuel c.proc (some c.target) etime .stopped
     stopJobNext fuel j.app
   stopperNext fuel
 
